@@ -375,6 +375,47 @@ theorem truncData_length_le (d : List Nat) : (truncData d).length ≤ (d.length 
   have h2 : (wordsOf d).length = (d.length + 7) / 8 := by simp [wordsOf]
   omega
 
+/-! ## congruence: the canonical form factors through the truncations, and lifts from children to parents -/
+
+/-- **the canonical form sees a struct only through its truncations**: equal data sections (C17's `dataEq`) and
+    pointer sections that differ only in trailing nulls give byte-identical canonical forms, at the root … -/
+theorem canon_congr_trunc (a b : List Nat) (ps qs : List Val) (m n : Nat) (ha : a.length = 8 * m) (hb : b.length = 8 * n)
+    (hd : dataEq a b = true) (hp : truncPtrs ps = truncPtrs qs) : canon (.struct a ps) = canon (.struct b qs) := by
+  simp only [canon, canonPtr, dataEq_truncData a b m n ha hb hd, hp]
+
+/-- … and at any depth (any output so far, any pointer position) -/
+theorem canonPtr_congr_trunc (f : Nat) (a b : List Nat) (ps qs : List Val) (m n : Nat) (ha : a.length = 8 * m)
+    (hb : b.length = 8 * n) (hd : dataEq a b = true) (hp : truncPtrs ps = truncPtrs qs) (out : List Nat) (pw : Nat) :
+    canonPtr f (.struct a ps) out pw = canonPtr f (.struct b qs) out pw := by
+  cases f with
+  | zero => simp [canonPtr]
+  | succ f => simp only [canonPtr, dataEq_truncData a b m n ha hb hd, hp]
+
+/-- a parent whose children have identical canonical encodings everywhere has one too: `canonPtrs` is a fold of
+    `canonPtr`, so pointwise agreement lifts to pointer sections -/
+theorem canonPtrs_congr (f : Nat) (ps qs : List Val) (hl : ps.length = qs.length)
+    (h : ∀ i (h1 : i < ps.length) (h2 : i < qs.length) out pw, canonPtr f ps[i] out pw = canonPtr f qs[i] out pw)
+    (out : List Nat) (pw : Nat) : canonPtrs f ps out pw = canonPtrs f qs out pw := by
+  induction ps generalizing qs out pw with
+  | nil => cases qs with
+    | nil => rfl
+    | cons q qs => simp at hl
+  | cons p ps ih =>
+    cases qs with
+    | nil => simp at hl
+    | cons q qs =>
+      simp only [canonPtrs]
+      have h0 := h 0 (by simp) (by simp) out pw
+      simp only [List.getElem_cons_zero] at h0
+      rw [h0]
+      cases canonPtr f q out pw with
+      | none => rfl
+      | some o =>
+        exact ih qs (by simpa using hl)
+          (fun i h1 h2 out pw => by
+            have := h (i + 1) (by simp; omega) (by simp; omega) out pw
+            simp only [List.getElem_cons_succ] at this; exact this) o (pw + 1)
+
 -- non-vacuity
 example : canon (.struct [] [.cap 3]) = none := by simp [canon, canonPtr, truncData, truncPtrs, isNullV, canonPtrs]
 
